@@ -13,7 +13,7 @@ from ..loop import Cancel, PAUSE, LOCKWAIT, make_lock_type
 from ..runner import Outcome
 from ..tools import draw_cfg, Gen, lib
 from ..actors import ASYNC_FLAVOURS, SYNC_FLAVOURS
-from .common import COMPONENTS_BASE, run_sim, new_sim, finish_outcome
+from .common import set_interrupts, COMPONENTS_BASE, run_sim, new_sim, finish_outcome
 
 PID = "C09"
 LEVEL = "exploration"
@@ -162,7 +162,7 @@ def execute(st_, ctx):
     ch = st_.scenario
     sc = gen(ch)
     sim = new_sim(st_, interrupts=False)
-    sim.interrupt_den = (0, 0, 5, 2)[sc.interrupt]
+    set_interrupts(sim, (0, 0, 5, 2)[sc.interrupt])
     world = World(sim)
     src = make_async_source(world, sc.src)
     lock = None
